@@ -44,10 +44,12 @@ RULE = (
     "constructed object (for the corpus parameter sets), i.e. all 64 (held kind, requested kind) pairs in every "
     "configuration; the PDUs held by these holders are re-observed after the next 2 cases. Shards partition kind x "
     "configuration such that every shard contains every value of every configuration axis. (2) independence: case = "
-    "(earlier kind a, later kind b, configuration of a, relation, parameter sets): a is decoded by from_raw and by "
-    "from_raw_to_holder and constructed, then b is decoded by both entry points and constructed, then the three results "
-    "of a are observed again (all fields, packet_len, pack()) and a's holder must still answer all 8 accessors for kind "
-    "a; the inspectors are evaluated on b's octets after a's. relation 'complement': all 256 configurations of a, b's "
+    "(earlier kind a, later kind b, configuration of a, relation, parameter sets): the complete factory clause for a (in "
+    "whatever state the earlier cases of the shard left the library), a decoded again by from_raw and by "
+    "from_raw_to_holder and constructed, then the complete factory clause for b (constructs b, decodes it through "
+    "from_raw), b through from_raw_to_holder with its 8 accessors and the three inspectors on b's octets, then the three "
+    "results of a are observed again (class, all fields, packet_len, pdu_data_field_len, pack()) and a's holder must "
+    "still hold the same object and answer all 8 accessors for kind a. relation 'complement': all 256 configurations of a, b's "
     "configuration differs in every header axis and in every ID octet, parameter sets (minimal, full) and (full, minimal); "
     "relation 'same': the 16 configurations of a Latin square (every width pair and every flag combination once), same "
     "configuration and IDs for b, all 4 parameter-set pairs. (3) holder histories: case = (start state, origin of the "
@@ -198,9 +200,11 @@ def param_sets(unit, cfg, with_vectors, tier):
     return out
 
 
-def check_inspectors(rec, kind, recipe, raw, clause="inspect"):
-    """PduFactory.pdu_type / is_file_directive / pdu_directive_type versus the reference extraction"""
-    case = {"kind": "inspect", "unit": kind, "recipe": U.hexed(U.norm(recipe))}
+def check_inspectors(rec, kind, recipe, raw, case=None):
+    """PduFactory.pdu_type / is_file_directive / pdu_directive_type versus the reference extraction.
+    With `case` (an independence pair) the signature is the coarse one of the independence clause."""
+    pair = case is not None
+    case = case or {"kind": "inspect", "unit": kind, "recipe": U.hexed(U.norm(recipe))}
     F = U.L.PduFactory
     exp_type, exp_dir = R.pdu_type(raw), R.directive_code(raw)
     cfg = recipe["cfg"]
@@ -211,10 +215,12 @@ def check_inspectors(rec, kind, recipe, raw, clause="inspect"):
         try:
             got = call()
         except Exception as e:
-            rec.violation(f"C12.{clause}/PduFactory.{name}/exception/{kind}{feats}", case, repr(e), exp)
+            sig = f"C12.independence/PduFactory.{name}/wrong-after-a-decode-of-another-kind" if pair else f"C12.inspect/PduFactory.{name}/exception/{kind}{feats}"
+            rec.violation(sig, case, repr(e), exp)
             continue
         if got != exp:
-            rec.violation(f"C12.{clause}/PduFactory.{name}/wrong-answer/{kind}{feats}", case, got, exp)
+            sig = f"C12.independence/PduFactory.{name}/wrong-after-a-decode-of-another-kind" if pair else f"C12.inspect/PduFactory.{name}/wrong-answer/{kind}{feats}"
+            rec.violation(sig, case, got, exp)
 
 
 def check_holder(rec, kind, recipe, holder, origin, case=None, held=None):
@@ -322,42 +328,49 @@ def indep_case(rec, a, b, ci, rel, tag_a, tag_b):
     F = U.L.PduFactory
     keeper = Keeper(rec, PROPERTY, depth=3)
     obs = pdu_observer(ua)
-    rec.case(True, ops=6 + 3 + 8 + 3)
-    holder = None
+    rec.case(True, ops=2 * U.OPS_PER_CASE + 3 + 3 + 8 + 3)
+    # a alone is the business of the matrix shards (complete factory clause, minimised witness); here it only has to
+    # be usable as the earlier result
+    if U.evaluate(ua, ra, "factory", False) is not None:
+        rec.count("indep_earlier_not_decodable")
+        return
     try:
         first = F.from_raw(raw_a)
         holder = F.from_raw_to_holder(raw_a)
-    except Exception:
-        rec.count("indep_earlier_not_decodable")  # reported by the factory clause of the matrix shards
-        return
-    if type(first) is not ua.cls() or type(holder.pdu) is not ua.cls():
-        rec.count("indep_earlier_not_decodable")
+        if type(first) is not ua.cls() or type(holder.pdu) is not ua.cls():
+            raise ValueError("classes %s, %s" % (type(first).__name__, type(holder.pdu).__name__))
+    except Exception as e:
+        rec.violation("C12.independence/PduFactory.from_raw/second-decode-of-the-same-octets-differs", case, repr(e), a)
         return
     held = holder.pdu
-    keeper.hold(f"PduFactory.from_raw({a})", first, obs, case)
+    keeper.hold("PduFactory.from_raw", first, obs, case)
     keeper.hold("PduFactory.from_raw_to_holder", held, obs, case)
     try:
         keeper.hold("constructed-original", ua.build(ra), obs, case)
     except Exception:
         rec.count("original_not_constructible")
-    # ---- later use of the library: kind b
+    # ---- later use of the library: kind b, straight after kind a (the complete factory clause again: constructs b,
+    # decodes it through from_raw, compares every observable, equality, re-pack), then the holder entry point
+    fail = U.evaluate(ub, rb, "factory", False)
+    if fail is not None:
+        rec.violation("C12.independence/PduFactory.from_raw/later-decode-of-another-kind-wrong", case,
+                      [fail.subject, fail.kind, fail.observed], fail.expected,
+                      note="factory clause for the later PDU evaluated straight after the earlier one (if the matrix shards report "
+                           "the same recipe under C12.factory it also fails alone)")
     try:
-        F.from_raw(raw_b)
-        F.from_raw_to_holder(raw_b)
+        hb = F.from_raw_to_holder(raw_b)
+        if type(hb.pdu) is ub.cls():
+            check_holder(rec, b, rb, hb, "from_raw_to_holder-after-other-kind", case=case)
     except Exception:
-        rec.count("indep_later_not_decodable")
-    try:
-        ub.build(rb)
-    except Exception:
-        rec.count("original_not_constructible")
-    check_inspectors(rec, b, rb, raw_b, clause="inspect-after-other-kind")
+        rec.count("indep_later_not_decodable")  # reported by the factory clause just above
+    check_inspectors(rec, b, rb, raw_b, case=case)
     keeper.recheck({"later": b, "recipe": U.hexed(rb)})
     keeper.flush()
     if holder.pdu is not held:
         rec.violation("C12.independence/PduHolder.pdu/replaced-by-a-later-call", case, type(holder.pdu).__name__, a)
     else:
         check_holder(rec, a, ra, holder, "from_raw_to_holder-after-other-kind", case=case, held=held)
-    rec.count("holder_pairs_checked", 8)
+    rec.count("holder_pairs_checked", 16)
     rec.count("independence_pairs")
     rec.outcome(f"indep:{a}:{b}:{rel}")
 
